@@ -25,9 +25,10 @@ pkgs=$(for f in $demos; do echo "./$(dirname $f)"; done | sort -u | tr '\n' ' ')
 demo_with=$(go test -vet=off -count=1 $pkgs 2>&1 | grep -E "^(--- FAIL|FAIL|ok|panic)" | grep -v "TestString " | tr '\n' ';')
 echo "demo with change: $demo_with"
 # 3. demo without
-git stash -q
+# (not git stash: the stash is shared by all worktrees of the repository)
+git apply -R "$out/patch.diff" || { echo "cannot reverse the patch"; exit 3; }
 demo_without=$(go test -vet=off -count=1 $pkgs 2>&1 | grep -E "^(--- FAIL|FAIL|ok|panic)" | tr '\n' ';')
-git stash pop -q
+git apply "$out/patch.diff"
 echo "demo without change: $demo_without"
 rm -rf "$tmpd"
 cat > "$out/confirm.txt" <<EOF
